@@ -44,6 +44,15 @@ func init() {
 		p.Thorough = append(p.Thorough, HRun{Entry: "HarnessC17Routing", Args: []int64{3}, Bound: "filter-key routing with 3-byte patterns", Require: []string{"checked", "invalid"}})
 		p.Quick = append(p.Quick, HRun{Entry: "HarnessC17TwoFilters", Args: []int64{2}, Bound: "the same 2-byte pattern under two filter keys of two events (path + ref in both orders, ref + ref): each occurrence judged by its own key's syntax", Require: []string{"checked"}})
 		p.Thorough = append(p.Thorough, HRun{Entry: "HarnessC17TwoFilters", Args: []int64{3}, Bound: "the same 3-byte pattern under two filter keys", Require: []string{"checked"}})
+		for L := int64(1); L <= 2; L++ {
+			p.Quick = append(p.Quick, HRun{Entry: "HarnessC17NonASCII", Args: []int64{L}, Bound: "a two-byte UTF-8 character (all of U+0080..U+07FF) at any position of an ASCII pattern of L bytes: same verdict and number of reports as with the letter k in its place, as ref and as path filter", Require: []string{"compared"}})
+		}
+		p.Thorough = append(p.Thorough, HRun{Entry: "HarnessC17NonASCII", Args: []int64{3}, Bound: "two-byte character in an ASCII pattern of 3 bytes", Require: []string{"compared"}})
+		for L := int64(1); L <= 3; L++ {
+			r := HRun{Entry: "HarnessC17Nul", Args: []int64{L}, Bound: "a ref filter of L ASCII bytes containing a NUL is reported (Git forbids control characters)", Require: []string{"checked"}}
+			p.Quick = append(p.Quick, r)
+			p.Thorough = append(p.Thorough, r)
+		}
 		props["C17"] = p
 	}
 
@@ -464,6 +473,11 @@ func init() {
 			p.Quick = append(p.Quick, r)
 			p.Thorough = append(p.Thorough, r)
 		}
+		{
+			r := HRun{Entry: "HarnessC09RuleIsolation", Bound: "all rules together = the rules one at a time on fresh trees: the C02 corpus, every C09 job variant, and the full skeleton with each scalar made a quoted placeholder", Require: []string{"compared"}}
+			p.Quick = append(p.Quick, r)
+			p.Thorough = append(p.Thorough, r)
+		}
 		props["C09"] = p
 	}
 
@@ -569,6 +583,11 @@ func init() {
 		}
 		{
 			r := HRun{Entry: "HarnessC07Fields", Bound: "6 fields that take one placeholder as their whole value (timeout-minutes, continue-on-error, max-parallel, fail-fast, env, matrix), quoted, 0-2 blanks before the placeholder, symbolic 64-bit position", Require: []string{"checked"}}
+			p.Quick = append(p.Quick, r)
+			p.Thorough = append(p.Thorough, r)
+		}
+		{
+			r := HRun{Entry: "HarnessC09RuleIsolation", Bound: "all rules together = the rules one at a time on fresh trees: the C02 corpus, every C09 job variant, and the full skeleton with each scalar made a quoted placeholder", Require: []string{"compared"}}
 			p.Quick = append(p.Quick, r)
 			p.Thorough = append(p.Thorough, r)
 		}
